@@ -41,7 +41,7 @@ ASSUMPTIONS = [
 ]
 
 OBSERVERS = ('compose', 'ja3', 'hassh', 'hassh_server', 'fingerprints', 'key_bytes', 'host_key_asdict', 'key_tag',
-             'as_json', 'json.dumps', 'as_markdown', '_asdict', 'str', 'repr', 'eq-self', 'hash')
+             'as_json', 'json.dumps', 'as_markdown', '_asdict', 'str', 'repr', 'eq-self', 'hash', 'as_markdown:with-hook')
 
 
 def _observe(obj, name):
@@ -56,6 +56,21 @@ def _observe(obj, name):
         return obj == copy.deepcopy(obj)
     if name == 'hash':
         return hash(obj) if type(obj).__hash__ is not None else 'unhashable'
+    if name == 'as_markdown:with-hook':
+        # the documented text-encoder hook installed for the duration of the call (an application colouring / escaping
+        # the leaves): the same call gives the same text every time
+        from cryptoparser.common.base import Serializable, SerializableTextEncoder  # pylint: disable=import-outside-toplevel
+
+        class Marking(SerializableTextEncoder):
+            def __call__(self, value, level):
+                multiline, text = super(Marking, self).__call__(value, level)
+                return multiline, text.upper()
+        original = Serializable.__dict__['post_text_encoder']
+        Serializable.post_text_encoder = Marking()
+        try:
+            return obj.as_markdown()
+        finally:
+            Serializable.post_text_encoder = original
     attribute = getattr(obj, name)
     value = attribute() if callable(attribute) else attribute
     return value
@@ -66,6 +81,9 @@ def available_observers(obj):
     for name in OBSERVERS:
         if name in ('json.dumps', 'str', 'repr', 'eq-self', 'hash'):
             out.append(name)
+        elif name == 'as_markdown:with-hook':
+            if hasattr(type(obj), 'as_markdown'):
+                out.append(name)
         elif hasattr(type(obj), name):
             out.append(name)
     return out
@@ -100,12 +118,39 @@ def _obtain(case):
     return parsed.value[0] if parsed.ok else None
 
 
+def _class_attributes(obj):
+    """{class: names defined on the class itself} for the classes of obj and of the library objects inside it
+    (bases included): observers must not add any (interpreter bookkeeping such as __slotnames__ aside)."""
+    from vf.props import c01  # pylint: disable=import-outside-toplevel
+    classes = set()
+    for item in [obj] + c01.nested_parsables(obj, limit=40):
+        for cls in type(item).__mro__:
+            if cls.__module__.startswith('cryptoparser.'):
+                classes.add(cls)
+    return {cls: frozenset(name for name in vars(cls) if not (name.startswith('__') and name.endswith('__')) and not name.startswith('_abc_'))
+            for cls in classes}
+
+
+def _new_class_attributes(before, name, obj):
+    findings = []
+    for cls, names in _class_attributes(obj).items():
+        added = names - before.get(cls, names)
+        for attribute in sorted(added):
+            findings.append(Finding('observer-leaves-class-state:%s/%s' % (attribute, name), {'class': cls.__name__}))
+            try:
+                delattr(cls, attribute)          # do not let one case poison the next
+            except AttributeError:
+                pass
+    return findings[:3]
+
+
 def check_observe(case):
     obj = _obtain(case)
     if obj is None:
         return []
     name = type(obj).__name__
     findings = []
+    class_state = _class_attributes(obj)
     check_observe.edited = False
     if case.get('edited'):
         # the object a caller has after editing items of its vectors in place (sizes cached by the vectors are then
@@ -133,6 +178,20 @@ def check_observe(case):
             return findings
         first.setdefault(observer, signature)
     check_observe.failed_any = failed_any
+    if not findings and 'as_markdown:with-hook' in available:
+        # every history ends with: plain render, two renders under an installed text-encoder hook, plain render
+        plain = _outcome_signature(lib.call(_observe, obj, 'as_markdown'))
+        hooked = [_outcome_signature(lib.call(_observe, obj, 'as_markdown:with-hook')) for _ in range(2)]
+        again = _outcome_signature(lib.call(_observe, obj, 'as_markdown'))
+        if hooked[0] != hooked[1]:
+            findings.append(Finding('observer-unstable:as_markdown:with-hook/%s' % name, {
+                'first': hooked[0][:160], 'now': hooked[1][:160]}))
+        elif plain != again:
+            findings.append(Finding('observer-unstable:as_markdown/%s' % name, {
+                'what': 'differs after a render under an installed (and removed) encoder hook', 'first': plain[:160], 'now': again[:160]}))
+        elif _state(obj) != before:
+            findings.append(Finding('observer-mutates:as_markdown:with-hook/%s' % name, {}))
+    findings.extend(_new_class_attributes(class_state, name, obj))
     return findings
 
 
